@@ -447,3 +447,64 @@ package backend
 //@ property C28: (*NodeInfo).SetStatusUp, (*NodeInfo).SetStatusDown, (*NodeInfo).IsStatusDown, (*NodeInfo).GetStatus, (*StatusCode).String,
 //@   (*NodeInfo).GetPooledConnectWithHealthCheck, (*NodeInfo).ShouldDownAfterNoAlive, (*Slice).GetMasterStatus, checkSlaveSyncStatus$1,
 //@   checkSlaveSyncStatus, (*Slice).checkWithNoRecovery, (*Slice).checkWithHardRecovery, (*Slice).checkWithGradualRecovery, (*Slice).TryRecover
+
+// ---------------------------------------------------------------- C18 / C19 / C23 ownership of pooled backend connections
+// connOut[c] = 1 while connection c is handed out by its pool, 0 otherwise. Taking a connection requires it not to be out
+// (the pool's own guarantee, trusted); Recycle requires it to be out: a double return fails this precondition.
+//@ ghost connOut map[PooledConnect]int
+//@ ghost isMaster map[PooledConnect]bool
+//@ iface PooledConnect.Recycle
+//@   params recv
+//@   requires recv != nil && connOut[recv] == 1
+//@   assigns connOut
+//@   ensures connOut[recv] == 0 && forall(c PooledConnect, c != recv ==> connOut[c] == old(connOut[c]))
+// every other method talks to the backend over the connection and touches nothing of the proxy's session state
+//@ iface PooledConnect.Close
+//@   params recv
+//@   pure-call
+//@ iface PooledConnect.IsClosed
+//@   params recv
+//@   pure-call
+//@ iface PooledConnect.Begin
+//@   params recv
+//@   pure-call
+//@ iface PooledConnect.Commit
+//@   params recv
+//@   pure-call
+//@ iface PooledConnect.Rollback
+//@   params recv
+//@   pure-call
+//@ iface PooledConnect.SetAutoCommit
+//@   params recv, v
+//@   pure-call
+//@ iface PooledConnect.SyncSessionVariables
+//@   params recv, frontend
+//@   pure-call
+//@ iface PooledConnect.Execute
+//@   params recv, sql, maxRows
+//@   pure-call
+//@ iface PooledConnect.PingWithTimeout
+//@   params recv, timeout
+//@   pure-call
+//@ iface PooledConnect.MoreRowsExist
+//@   params recv
+//@   pure-call
+//@ iface PooledConnect.MoreResultsExist
+//@   params recv
+//@   pure-call
+//@ iface PooledConnect.GetAddr
+//@   params recv
+//@   pure-call
+//@ iface PooledConnect.GetConnectionID
+//@   params recv
+//@   pure-call
+// taking a connection (assumed contracts: the pools and the replica selection are not under contract here): the connection is
+// handed out exactly once; GetMasterConn hands out a connection to the slice's master
+//@ func (*Slice).GetMasterConn
+//@   assigns connOut
+//@   ensures ret1 == nil ==> ret0 != nil && old(connOut[ret0]) == 0 && connOut[ret0] == 1 && isMaster[ret0] && forall(c PooledConnect, c != ret0 ==> connOut[c] == old(connOut[c]))
+//@   ensures ret1 != nil ==> ret0 == nil && forall(c PooledConnect, connOut[c] == old(connOut[c]))
+//@ func (*Slice).GetConn
+//@   assigns connOut
+//@   ensures ret1 == nil ==> ret0 != nil && old(connOut[ret0]) == 0 && connOut[ret0] == 1 && forall(c PooledConnect, c != ret0 ==> connOut[c] == old(connOut[c]))
+//@   ensures ret1 != nil ==> ret0 == nil && forall(c PooledConnect, connOut[c] == old(connOut[c]))
